@@ -164,6 +164,19 @@ func nameMatch(filterName, actual string) tri {
 	return triF
 }
 
+// fieldNameMatch is nameMatch for property and parameter names. RFC 5545
+// section 3.1 / 3.2: these names are case-insensitive, and an object that was
+// read from text holds them in upper case. A filter name that differs in
+// letter case from such a name is therefore that name; only a name the object
+// itself holds in another case (built in memory) stays undecided.
+func fieldNameMatch(filterName, actual string) tri {
+	nm := nameMatch(filterName, actual)
+	if nm == triU && actual == strings.ToUpper(actual) {
+		return triT
+	}
+	return nm
+}
+
 func asciiFold(s string) string {
 	b := []byte(s)
 	for i, c := range b {
@@ -215,7 +228,7 @@ func (r *refEval) propFilter(f PropFilter, c Comp) tri {
 	exists := triF
 	var results []tri
 	for _, p := range c.Props {
-		nm := nameMatch(f.Name, p.Name)
+		nm := fieldNameMatch(f.Name, p.Name)
 		if nm == triF {
 			continue
 		}
@@ -260,7 +273,7 @@ func (r *refEval) paramFilter(f ParamFilter, p Prop) tri {
 	present := triF
 	var vals []string
 	for _, pa := range p.Params {
-		nm := nameMatch(f.Name, pa.Name)
+		nm := fieldNameMatch(f.Name, pa.Name)
 		if nm == triF {
 			continue
 		}
